@@ -14,7 +14,7 @@ func init() {
 		},
 		NotDecided: []string{"64-bit hash collisions between distinct encodings", "count conservation as arithmetic"},
 		Rules: func(r *Run) {
-			ruleMO(r, 10)
+			ruleMO(r, 10, "aggregatedLabels", "newAggregatedLabels", "logqlmetric", "sampleIterator", "LabelSet).Range")
 			ruleKeyEncoders(r)
 			ruleKeyedStores(r)
 			ruleFreshMaps(r)
